@@ -150,3 +150,26 @@ CONTRACTS["force.Force.compute@again"] = dict(CONTRACTS["force.Force.compute"], 
 # `None` - an option that is dropped on the way is replaced by removeOverlap's own default bound 0
 CONTRACTS["force.Force.compute@no_lower_bound"] = dict(CONTRACTS["force.Force.compute"], func_alias="force.Force.compute",
                                                        params={"self": force_full(minpos="none")})
+
+
+# ---------------------------------------------------------------------------------------------------- Force.__init__ / nodes
+# C10 "timelines share nothing unless the caller passes them the same objects", C01-C03 "the documented defaults": a new
+# engine owns its option dictionary (and so does its distributor), starts from the documented defaults, takes the caller's
+# values on top, never writes a module-level default object and never adopts the caller's dictionary.
+for _nm, _opts in (("defaults", "none"), ("given", {"$dict": {"nodeSpacing": "real", "maxPos": "real"}})):
+    CONTRACTS["force.Force.__init__@%s" % _nm] = {
+        "props": ["C10", "C01", "C03"], "inline": True, "func_alias": "force.Force.__init__",
+        "params": {"self": {"$obj": ("force", "Force"), "fields": {}}, "options": _opts},
+        "module_state": "obligation",
+        "ensures": [("own_option_dict", "self.options is not DEFAULT_OPTIONS"),
+                    ("distributor_owns_its_options", "self.distributor.options is not distributor.DEFAULT_OPTIONS and self.distributor.options is not self.options"),
+                    ("no_layering_reported_yet", "self.layers is None and len(self._nodes) == 0"),
+                    ("documented_default_bounds", "self.options['minPos'] == 0" + (" and self.options['maxPos'] is None and self.options['nodeSpacing'] == 3"
+                                                                                   if _nm == "defaults" else "")),
+                    ("distributor_follows_the_engine", "self.distributor.options['nodeSpacing'] == self.options['nodeSpacing'] "
+                                                       "and self.distributor.options['stubWidth'] == self.options['stubWidth']")]
+        + ([("callers_values_on_top", "self.options['nodeSpacing'] == options['nodeSpacing'] and self.options['maxPos'] == options['maxPos']"),
+            ("callers_dict_not_adopted", "self.options is not options and len(options) == 2"),
+            ("layer_width_is_the_distance_between_the_bounds", "self.distributor.options['layerWidth'] == options['maxPos'] - 0")] if _nm == "given" else
+           [("no_layer_width_without_an_upper_bound", "self.distributor.options['layerWidth'] is None")]),
+    }
